@@ -41,7 +41,10 @@ def load_lines(
             EOL = EOL.encode(encoding)[len(''.encode(encoding)):]
         elif not isinstance(EOL, bytes):
             raise TypeError(f"EOL='{EOL}' could be str or bytes for read_mode='{read_mode}'")
-        for line in load_file(file_path, read_mode='b').split(EOL):
+        lines = load_file(file_path, read_mode='b').split(EOL)
+        if not lines[-1]:
+            lines.pop()     # an EOL ends a line, it does not start another one (and an empty file has no line)
+        for line in lines:
             yield line
     else:
         with open(file_path, 'rt', encoding=encoding) as in_filehandler:
